@@ -119,10 +119,12 @@ def cases(seed, tier, shard, nshards):
             k += 1
             m = 'Wq%dx' % k
             raw = r.choice(VERB_RAW).replace('M', m)
+            # (plain and starred forms: the starred ones are other node types and may have templates of their own)
+            star = '*' if r.random() < 0.35 else ''
             if r.random() < 0.5:
-                d['c'].append({'t': 'raw', 'src': '\\begin{verbatim}\n%s\n\\end{verbatim}' % raw, 'expect': raw, 'marker': m})
+                d['c'].append({'t': 'raw', 'src': '\\begin{verbatim%s}\n%s\n\\end{verbatim%s}' % (star, raw, star), 'expect': raw, 'marker': m})
             else:
-                d['c'].append({'t': 'raw', 'src': 'Wq%dx \\verb|%s| Wq%dx' % (k + 100, raw, k + 200), 'expect': raw, 'marker': m})
+                d['c'].append({'t': 'raw', 'src': 'Wq%dx \\verb%s|%s| Wq%dx' % (k + 100, star, raw, k + 200), 'expect': raw, 'marker': m})
         # program listings (package listings): with and without the optional highlighter (pygments) being importable
         lst = r.random() < 0.3
         pre = ''
